@@ -1,5 +1,5 @@
 # sourced by bin/setup and bin/check
-export GOFLAGS=-mod=mod GOPROXY=off GOSUMDB=off GOTOOLCHAIN=local
+export GOFLAGS=-mod=readonly GOPROXY=off GOSUMDB=off GOTOOLCHAIN=local
 export VERIF_DIR="${VERIF_DIR:-$(cd "$(dirname "${BASH_SOURCE[0]}")/.." && pwd)}"
 export REPO_DIR="${REPO_DIR:-/repo}"
 export VERIF_BUILD_DIR="${VERIF_BUILD_DIR:-$VERIF_DIR/build}"
